@@ -87,6 +87,81 @@ example :
     runLoop (ε := Unit) true [] [] = (.ok (.Ok ()), []) := by
   decide
 
+/-- the number of rejecting blocks among the tests that are run -/
+def failureCount (tests : List TestCase) : Nat := (tests.filter (fun t => !accepts t)).length
+
+theorem failureCount_pos (tests : List TestCase) :
+    0 < failureCount tests ↔ ∃ t ∈ tests, t.func.info.verdict ≠ .Accept () := by
+  unfold failureCount
+  rw [List.length_pos_iff_exists_mem]
+  constructor
+  · rintro ⟨t, ht⟩
+    obtain ⟨hm, hp⟩ := List.mem_filter.mp ht
+    exact ⟨t, hm, by simpa [accepts] using hp⟩
+  · rintro ⟨t, hm, hp⟩
+    exact ⟨t, List.mem_filter.mpr ⟨hm, by simpa [accepts] using hp⟩⟩
+
+/-- T2 by count.  For EVERY number of rejecting blocks (`failureCount tests` ranges over all of
+    `Nat` below the counter width, not over sampled values): the loop ends in `Err` iff that
+    number is positive.  Any arithmetic on the count between the loop and the result
+    (truncation, modulus, comparison with another constant) falsifies this. -/
+theorem aggregate_count {ε} (dbg : Bool) (tests : List TestCase) (hlen : tests.length < 2^31) (log : List Event) :
+    ∃ r, runLoop (ε := ε) dbg tests log = (.ok r, log ++ tests.map evOf) ∧
+      (r = .Err () ↔ 0 < failureCount tests) := by
+  obtain ⟨r, hr, hiff⟩ := aggregate_iff (ε := ε) dbg tests hlen log
+  refine ⟨r, hr, ?_⟩
+  rw [failureCount_pos]
+  rcases r with ⟨⟨⟩⟩ | ⟨⟨⟩⟩
+  · have := hiff.mp rfl
+    constructor
+    · intro h; cases h
+    · rintro ⟨t, hm, hp⟩; exact absurd (this t hm) hp
+  · have hn : ¬ ∀ t ∈ tests, t.func.info.verdict = .Accept () := fun h => by
+      have := hiff.mpr h; cases this
+    constructor
+    · intro _
+      exact Classical.byContradiction fun hc =>
+        hn (fun t hm => Classical.byContradiction fun hp => hc ⟨t, hm, hp⟩)
+    · intro _; rfl
+
+theorem failureCount_replicate (acc rej : TestCase)
+    (hacc : acc.func.info.verdict = .Accept ()) (hrej : rej.func.info.verdict = .Reject ()) (a n : Nat) :
+    failureCount (List.replicate a acc ++ List.replicate n rej) = n := by
+  simp [failureCount, List.filter_append, accepts, hacc, hrej]
+
+/-- … and every count is realised: `a` accepting and `n` rejecting blocks, for every `n` —
+    in particular `n = 256·k`, which a status or counter truncated to 8 bits would map to 0. -/
+theorem aggregate_every_count {ε} (dbg : Bool) (acc rej : TestCase)
+    (hacc : acc.func.info.verdict = .Accept ()) (hrej : rej.func.info.verdict = .Reject ())
+    (a n : Nat) (h : a + n < 2^31) :
+    (runLoop (ε := ε) dbg (List.replicate a acc ++ List.replicate n rej) []).1
+      = .ok (if n = 0 then .Ok () else .Err ()) := by
+  have hcount := failureCount_replicate acc rej hacc hrej a n
+  obtain ⟨r, hr, hiff⟩ := aggregate_count (ε := ε) dbg (List.replicate a acc ++ List.replicate n rej)
+    (by simpa using h) []
+  rw [hr, hcount] at *
+  by_cases h0 : n = 0
+  · subst h0
+    rcases r with ⟨⟨⟩⟩ | ⟨⟨⟩⟩
+    · rfl
+    · exact absurd (hiff.mp rfl) (by omega)
+  · have : r = .Err () := hiff.mpr (by omega)
+    simp [this, h0]
+
+/-- non-vacuity at the boundary: 256 rejecting blocks are 256 failures, and the run fails. -/
+example :
+    let rej : TestCase := ⟨['r'], ⟨['r'], ⟨testSig, .Reject ()⟩⟩⟩
+    failureCount (List.replicate 256 rej) = 256 ∧
+    (runLoop (ε := Unit) true (List.replicate 256 rej) []).1 = .ok (.Err ()) := by
+  have hc := failureCount_replicate ⟨['a'], ⟨['a'], ⟨testSig, .Accept ()⟩⟩⟩
+    ⟨['r'], ⟨['r'], ⟨testSig, .Reject ()⟩⟩⟩ rfl rfl 0 256
+  rw [List.replicate_zero, List.nil_append] at hc
+  refine ⟨hc, ?_⟩
+  have h := aggregate_every_count (ε := Unit) true ⟨['a'], ⟨['a'], ⟨testSig, .Accept ()⟩⟩⟩
+    ⟨['r'], ⟨['r'], ⟨testSig, .Reject ()⟩⟩⟩ rfl rfl 0 256 (by omega)
+  rw [List.replicate_zero, List.nil_append] at h
+  exact h.trans (by simp)
+
 /-- `run_tests` is `get_tests` followed by the loop. -/
 theorem run_tests_eq {ε} (dbg : Bool) (module : Module) (tests : List TestCase)
     (h : get_tests dbg module = .ok tests) (log : List Event) :
@@ -116,18 +191,24 @@ def isEntryCall : Event → Bool
   | .calledEntry _ => true
   | _ => false
 
+@[simp] theorem failed_SUCCESS : ExitCode.SUCCESS.failed = false := rfl
+@[simp] theorem failed_FAILURE : ExitCode.FAILURE.failed = true := rfl
+
+/-- `check`: the process reports failure (non-zero status) exactly on a compile error; no
+    script code runs. -/
 theorem cli_exit_check (dbg : Bool) (W : World) (file : TR.Path) :
-    ∃ log, cli dbg W ⟨.Check file⟩ W.runtime [] = (.ok (if compileOk W then .SUCCESS else .FAILURE), log)
+    ∃ code log, cli dbg W ⟨.Check file⟩ W.runtime [] = (.ok code, log) ∧ code.failed = !compileOk W
       ∧ log.filter isRanTest = [] ∧ log.filter isEntryCall = [] := by
   obtain ⟨hc, r, p, t, tb⟩ := W
   cases r <;> cases p <;> cases t <;>
     simp [cli, cli_inner_result, cli_inner, Run.reify, compileOk, World.FileTree_read, World.parse, World.typecheck,
-      Cli.try_, Run.bind_apply, isRanTest, isEntryCall]
+      Cli.try_, Run.bind_apply, isRanTest, isEntryCall] <;>
+    exact ⟨_, _, ⟨rfl, rfl⟩, rfl, by simp, by simp⟩
 
 theorem cli_exit_test (dbg : Bool) (W : World) (hctx : W.hasCtx = false) (file : TR.Path)
     (tests : List TestCase) (hget : get_tests dbg ⟨W.table⟩ = .ok tests) (hlen : tests.length < 2^31) :
     ∃ code log, cli dbg W ⟨.Test file⟩ W.runtime [] = (.ok code, log) ∧
-      (code = .FAILURE ↔ (compileOk W = false ∨ ∃ t ∈ tests, t.func.info.verdict ≠ .Accept ())) ∧
+      (code.failed = true ↔ (compileOk W = false ∨ ∃ t ∈ tests, t.func.info.verdict ≠ .Accept ())) ∧
       log.filter isRanTest = (if compileOk W then tests.map evOf else []) ∧
       log.filter isEntryCall = [] := by
   obtain ⟨hc, r, p, t, tb⟩ := W
@@ -159,7 +240,7 @@ theorem cli_exit_test (dbg : Bool) (W : World) (hctx : W.hasCtx = false) (file :
         rcases h with rfl | rfl | rfl | rfl | rfl | rfl <;> rfl
       · simpa using h2 a h
   · refine ⟨.FAILURE, _, rfl, ?_, ?_, ?_⟩
-    · simp only [true_iff]
+    · simp only [failed_FAILURE, true_iff]
       have : ¬ ∀ t ∈ tests, t.func.info.verdict = .Accept () := fun h => by
         have := hiff.mpr h; cases this
       simpa using this
@@ -172,6 +253,24 @@ theorem cli_exit_test (dbg : Bool) (W : World) (hctx : W.hasCtx = false) (file :
         rcases h with rfl | rfl | rfl | rfl | rfl | rfl <;> rfl
       · simpa using h2 a h
 
+/-- T4 (`test`) by count: on a script that compiles, the process reports failure iff the number
+    of rejecting blocks is positive — for EVERY such number (the status is a function of
+    `failures > 0` only; nothing of the count's magnitude may leak into "zero or not"). -/
+theorem cli_exit_test_count (dbg : Bool) (W : World) (hctx : W.hasCtx = false) (hc : compileOk W = true)
+    (file : TR.Path) (tests : List TestCase) (hget : get_tests dbg ⟨W.table⟩ = .ok tests)
+    (hlen : tests.length < 2^31) :
+    ∃ code log, cli dbg W ⟨.Test file⟩ W.runtime [] = (.ok code, log) ∧
+      code.failed = decide (0 < failureCount tests) := by
+  obtain ⟨code, log, hrun, hiff, -, -⟩ := cli_exit_test dbg W hctx file tests hget hlen
+  refine ⟨code, log, hrun, ?_⟩
+  rw [hc] at hiff
+  simp only [Bool.true_eq_false, false_or] at hiff
+  rw [← failureCount_pos] at hiff
+  by_cases hp : 0 < failureCount tests
+  · simp [hp, hiff.mpr hp]
+  · have : code.failed ≠ true := fun h => hp (hiff.mp h)
+    simp [hp, this]
+
 /-- `get_function` fails exactly for a missing key or a different signature. -/
 theorem entry_status (t : Table) (want : Sig) (name : Name) :
     (∃ e, get_function t want name = .Err e) ↔
@@ -183,8 +282,8 @@ theorem entry_status (t : Table) (want : Sig) (name : Name) :
 
 theorem cli_exit_run (dbg : Bool) (W : World) (hctx : W.hasCtx = false) (file : TR.Path) (function : Name) :
     ∃ code log, cli dbg W ⟨.Run file function⟩ W.runtime [] = (.ok code, log) ∧
-      (code = .FAILURE ↔ (compileOk W = false ∨ ∃ e, get_function W.table entrySig function = .Err e)) ∧
-      log.filter isEntryCall = (if code = .SUCCESS then [.calledEntry (pkgDot ++ function)] else []) ∧
+      (code.failed = true ↔ (compileOk W = false ∨ ∃ e, get_function W.table entrySig function = .Err e)) ∧
+      log.filter isEntryCall = (if code.failed then [] else [.calledEntry (pkgDot ++ function)]) ∧
       log.filter isRanTest = [] := by
   obtain ⟨hc, r, p, t, tb⟩ := W
   simp only at hctx
@@ -221,11 +320,12 @@ example :
     let mk (k : Name) (s : Sig) (v : Verdict Unit Unit) : Name × FnInfo := (k, ⟨s, v⟩)
     let W : World := ⟨false, true, true, true,
       [mk (pkgDot ++ ['m']) entrySig (.Accept ()), mk (pkgDot ++ ['t', 'e', 's', 't', '#', 'a']) testSig (.Reject ())]⟩
-    (cli true W ⟨.Check ⟨⟩⟩ W.runtime []).1 = .ok .SUCCESS ∧
-    (cli true W ⟨.Test ⟨⟩⟩ W.runtime []).1 = .ok .FAILURE ∧
-    (cli true W ⟨.Run ⟨⟩ ['m']⟩ W.runtime []).1 = .ok .SUCCESS ∧
-    (cli true W ⟨.Run ⟨⟩ ['n']⟩ W.runtime []).1 = .ok .FAILURE ∧
-    (cli true { W with typeOk := false } ⟨.Check ⟨⟩⟩ W.runtime []).1 = .ok .FAILURE := by
+    let failed (o : Out CliErr ExitCode) : Option Bool := match o with | .ok c => some c.failed | _ => none
+    failed (cli true W ⟨.Check ⟨⟩⟩ W.runtime []).1 = some false ∧
+    failed (cli true W ⟨.Test ⟨⟩⟩ W.runtime []).1 = some true ∧
+    failed (cli true W ⟨.Run ⟨⟩ ['m']⟩ W.runtime []).1 = some false ∧
+    failed (cli true W ⟨.Run ⟨⟩ ['n']⟩ W.runtime []).1 = some true ∧
+    failed (cli true { W with typeOk := false } ⟨.Check ⟨⟩⟩ W.runtime []).1 = some true := by
   decide
 
 /-! ## T1 — discovery -/
